@@ -197,7 +197,7 @@ fn get_integer(buf: &mut Cursor<&[u8]>) -> Result<i64, Error> {
     // using if clause improves performance over multiplying with the sign value
     let num = if is_positive {
         // parse unchecked
-        while idx != end && idx != max_safe_digits {
+        while idx != end && idx - start != max_safe_digits {
             match ascii_to_i64(buf.get_ref()[idx]) {
                 Some(n) => num = num * 10 + n,
                 None => break,
@@ -220,7 +220,7 @@ fn get_integer(buf: &mut Cursor<&[u8]>) -> Result<i64, Error> {
         num
     } else {
         // parse unchecked
-        while idx != end && idx != max_safe_digits {
+        while idx != end && idx - start != max_safe_digits {
             match ascii_to_i64(buf.get_ref()[idx]) {
                 Some(n) => num = num * 10 - n,
                 None => break,
